@@ -8,6 +8,7 @@ Lemma generic_a64_shape rw first rg m :
   match generic_a64 rw first rg m with
   | CbUncacheable ra rg' => stripped (mask rg) ra /\ lr rg' = ra /\ mask rg' = mask rg
   | CbErr rg1 => rg1 = rg
+  | CbErrV rg1 => rg1 = rg
   | CbRule _ => False
   | CbPanic _ => False
   | CbHang => False
@@ -27,6 +28,7 @@ Lemma row_step_a64_shape rw first rg m :
   match row_step_a64 rw first rg m with
   | CbUncacheable ra rg' => stripped (mask rg) ra /\ lr rg' = ra /\ mask rg' = mask rg
   | CbErr rg1 => rg1 = rg
+  | CbErrV rg1 => rg1 = rg
   | CbRule _ => True
   | CbPanic _ => True
   | CbHang => True
@@ -41,6 +43,7 @@ Lemma cb_a64_shape md first rel rg m :
   match fst (cb_a64 md first rel rg m) with
   | CbUncacheable ra rg' => stripped (mask rg) ra /\ lr rg' = ra /\ mask rg' = mask rg
   | CbErr rg1 => rg1 = rg
+  | CbErrV rg1 => rg1 = rg
   | _ => True
   end.
 Proof.
@@ -50,6 +53,7 @@ Proof.
     match with_fde arule aregs row_step_a64 uncovered_rule_a64 f svma first rg m with
     | CbUncacheable ra rg' => stripped (mask rg) ra /\ lr rg' = ra /\ mask rg' = mask rg
     | CbErr rg1 => rg1 = rg
+    | CbErrV rg1 => rg1 = rg
     | _ => True end).
   { intros f svma. unfold with_fde. destruct (row_for_address f svma); [|exact I].
     pose proof (row_step_a64_shape r first rg m) as H.
@@ -87,6 +91,8 @@ Proof.
       * destruct (aexec r (negb (is_ra a)) rg m) as [o rg'] eqn:E. cbn. intros ->.
         apply aexec_some in E. tauto.
       * intros H; inversion H; subst. tauto.
+      * subst rg0. destruct (aexec afallback_rule (negb (is_ra a)) rg m) as [o rg'] eqn:E.
+        cbn. intros ->. apply aexec_some in E. tauto.
       * subst rg0. destruct (aexec afallback_rule (negb (is_ra a)) rg m) as [o rg'] eqn:E.
         cbn. intros ->. apply aexec_some in E. tauto.
     + destruct (aexec afallback_rule (negb (is_ra a)) rg m) as [o rg'] eqn:E. cbn. intros ->.
